@@ -79,7 +79,19 @@ def run(case):
         # innermost decorator = first in list order
         for k in reversed(range(len(d["pre"]))):
             pass
-        for k in range(len(d["pre"])):
+        ncap = case.get("captures", {}).get(str(f), 0)
+        npre = len(d["pre"]) - ncap
+        # the trailing `ncap` truthy conditions are realised as snapshot captures (logged as conditions)
+        for k in reversed(range(npre, len(d["pre"]))):
+            def mk_cap(f, k, d):
+                def cap():
+                    log.append(["cond", f, k])
+                    run_script(d["pre"][k])
+                    return k
+                return cap
+
+            g = icontract.snapshot(mk_cap(f, k, d), name="c%d" % k)(g)
+        for k in range(npre):
             def pre(f=f, k=k, d=d):
                 log.append(["cond", f, k])
                 return run_script(d["pre"][k])
@@ -91,6 +103,8 @@ def run(case):
         ck = _ck.find_checker(fns[f])
         if ck is not None and len(d["post"]) > 1:
             ck.__postconditions__.reverse()
+        if ck is not None:
+            ck.__postcondition_snapshots__.sort(key=lambda s_: int(s_.name[1:]))
 
     # classes: cls c has base bases[c]; the effective invariants of c are base's + own (a prefix relation)
     for c, d in enumerate(prog["classes"]):
